@@ -169,13 +169,17 @@ const (
 	OddCallBlockOneLine               // component call with a child block written on one line: @wrap() { <b>x</b> }
 	OddCommentBeforeTempl             // file level: a Go block ending in an INDENTED // comment directly in front of `templ`
 	OddHeaderSpansLines               // if / else if / for header whose Go expression spans lines (continuation lines indented)
-	OddAll                = OddGoCodeTwo | OddCondOneLine | OddExprComment | OddCallBlockOneLine | OddCommentBeforeTempl | OddHeaderSpansLines
+	OddAttrExprSpansLines             // every second attribute expression spans lines and holds a raw string with a line break
+	OddAll                = OddGoCodeTwo | OddCondOneLine | OddExprComment | OddCallBlockOneLine | OddCommentBeforeTempl | OddHeaderSpansLines | OddAttrExprSpansLines
 )
 
 type printer struct {
 	sb  strings.Builder
 	v   Variant
 	odd int // feature mask of the odd spelling (variant 3)
+
+	next      *Node // the sibling that follows the node being printed (nil: none)
+	nExprAttr int   // attribute expressions printed so far (the odd spellings alternate)
 }
 
 func (p *printer) ws(kind string, depth int) {
@@ -246,7 +250,12 @@ func (p *printer) attrs(as []Attr, depth int) {
 				fmt.Fprintf(&p.sb, "%s%s?={ env.C(%s) }", sep, a.N, num(a.C))
 			}
 		case "expr":
-			if p.v == 3 && p.odd&OddExprComment != 0 {
+			p.nExprAttr++
+			if p.v == 3 && p.odd&OddAttrExprSpansLines != 0 && p.nExprAttr%2 == 0 {
+				// the raw string's second line starts with two spaces: its content is part of the program
+				in := strings.Repeat("\t", depth+2)
+				fmt.Fprintf(&p.sb, "%s%s={\n%senv.ER(%s, `a\n  b`),\n%s}", sep, a.N, in, num(a.E), in[1:])
+			} else if p.v == 3 && p.odd&OddExprComment != 0 {
 				fmt.Fprintf(&p.sb, "%s%s={ env.E(%s) /* c */ }", sep, a.N, num(a.E))
 			} else if p.v == 1 {
 				fmt.Fprintf(&p.sb, "%s%s={env.E(%s)}", sep, a.N, num(a.E))
@@ -322,6 +331,10 @@ func (p *printer) attrs1(a Attr) {
 
 func (p *printer) nodes(ns []Node, depth int) {
 	for i, n := range ns {
+		p.next = nil
+		if i+1 < len(ns) {
+			p.next = &ns[i+1]
+		}
 		p.node(n, depth)
 		// templ's parsers for `{ ... }` nodes swallow leading SPACES (openBraceWithOptionalPadding), so spaces
 		// between a node without trailing-space information and a `{` would not be a whitespace node:
@@ -425,8 +438,16 @@ func (p *printer) node(n Node, depth int) {
 		p.sb.WriteString("}")
 		p.ws("v", depth)
 	case "call":
-		// a call that is not followed by a line break can only be written with the legacy syntax
-		if p.v == 2 || n.After != "v" {
+		// a call that is not followed by a line break is written with the legacy syntax, unless whitespace and then
+		// something that cannot continue the Go expression or open a block follows (`@leaf() w1`, `@leaf() <b>`)
+		atOK := n.After == "v"
+		if n.After == "h" && p.next != nil {
+			switch p.next.K {
+			case "text", "el", "void", "hcomment", "raw":
+				atOK = true
+			}
+		}
+		if p.v == 2 || !atOK {
 			p.sb.WriteString("{! " + n.Comp + "() }")
 		} else {
 			p.sb.WriteString("@" + n.Comp + "()")
